@@ -22,10 +22,10 @@ PROVED (for every diagram / syntax tree):
    structures are those of the full export minus the opposite leaf, and the edges are those of the
    full export minus the edges into it — for every diagram.
 
- * `tree_roundtrip`: the parse-tree export of parser output, read back from the node labels (the
-   constructor with its operator / variables / constant — `Head`) and the labelled edges alone
-   (`rebuild`: identical sub-terms are one shared node; counting operands are read in label order up to
-   the first missing label), is the syntax tree — at every node, in particular at the node of the
+ * `tree_roundtrip` (`Thm/C14T.lean`): the parse-tree export of parser output, read back from the node
+   labels (the constructor with its operator / variables / constant — `Head`) and the labelled edges
+   alone (`rebuild`: identical sub-terms are one shared node; counting operands are read in label order
+   up to the first missing label), is the syntax tree — at every node, in particular at the node of the
    whole formula.  Diagram leaves (`Subtree`, label "BDD") are excluded: the parser never builds them.
 
 Not modelled: the `dot` crate's rendering and label escaping (the harness reads the real DOT text back
@@ -33,7 +33,6 @@ and compares with this model's graph on every generated case).
 -/
 import Rsbdd.Proofs.Dot
 import Rsbdd.Thm.C13
-import Rsbdd.Proofs.ParseNoLeaf
 
 namespace Rsbdd.C14
 open Dot
@@ -402,622 +401,6 @@ theorem edges_filter (flt : BDD.Filter) : ∀ (r : PBDD) (t : BDD × Bool × BDD
         rw [← h] at ho; exact ho
       · refine Or.inr (Or.inr (Or.inr ⟨?_, h⟩))
         rw [← h] at ho; exact ho
-
-
-
-/-! ### reading the parse-tree export back as a term -/
-
-/-- what a node's label says: the constructor with its operator / variables / constant, not the sub-terms -/
-inductive Head where
-  | false_ | true_ | var (v : Nat) | not | quant (q : Quant) (vs : List Nat)
-  | cntConst (op : CntOp) (n : Nat) | cntVar (op : CntOp) | fix (v : Nat) (i : Bool)
-  | ite | bin (op : BinOp) | subtree | ref (n : String)
-
-def headOf : Formula → Head
-  | .false_ => .false_
-  | .true_ => .true_
-  | .var v => .var v
-  | .not _ => .not
-  | .quant q vs _ => .quant q vs
-  | .cntConst op _ n => .cntConst op n
-  | .cntVar op _ _ => .cntVar op
-  | .fix v i _ => .fix v i
-  | .ite _ _ _ => .ite
-  | .bin op _ _ => .bin op
-  | .subtree _ => .subtree
-  | .ref n => .ref n
-
-/-- the exported graph as a reader sees it: a label per node index, labelled edges -/
-structure HGraph where
-  heads : List Head
-  edges : List (Nat × ELabel × Nat)
-
-def toH (g : TreeGraph) : HGraph := ⟨g.nodes.map headOf, g.edges⟩
-
-/-- the target of the edge leaving `i` with label `lab` -/
-def childOf (G : HGraph) (i : Nat) (lab : ELabel) : Option Nat :=
-  (G.edges.find? (fun e => e.1 == i && decide (e.2.1 = lab))).map (·.2.2)
-
-mutual
-/-- the term below node `i` -/
-def rebuild (G : HGraph) : Nat → Nat → Option Formula
-  | 0, _ => none
-  | fuel + 1, i =>
-    match G.heads[i]? with
-    | none => none
-    | some .false_ => some .false_
-    | some .true_ => some .true_
-    | some (.var v) => some (.var v)
-    | some (.ref n) => some (.ref n)
-    | some .subtree => none
-    | some .not =>
-      match childOf G i .plain with
-      | some c => (rebuild G fuel c).map .not
-      | none => none
-    | some (.quant q vs) =>
-      match childOf G i .plain with
-      | some c => (rebuild G fuel c).map (.quant q vs)
-      | none => none
-    | some (.fix v init) =>
-      match childOf G i .plain with
-      | some c => (rebuild G fuel c).map (.fix v init)
-      | none => none
-    | some (.bin op) =>
-      match childOf G i .l, childOf G i .r with
-      | some a, some b =>
-        match rebuild G fuel a, rebuild G fuel b with
-        | some l, some r => some (.bin op l r)
-        | _, _ => none
-      | _, _ => none
-    | some .ite =>
-      match childOf G i .if_, childOf G i .then_, childOf G i .else_ with
-      | some a, some b, some c =>
-        match rebuild G fuel a, rebuild G fuel b, rebuild G fuel c with
-        | some x, some y, some z => some (.ite x y z)
-        | _, _, _ => none
-      | _, _, _ => none
-    | some (.cntConst op n) => (rebuildL G fuel i ELabel.idx 0).map (fun fs => .cntConst op fs n)
-    | some (.cntVar op) =>
-      match rebuildL G fuel i ELabel.lidx 0, rebuildL G fuel i ELabel.ridx 0 with
-      | some l, some r => some (.cntVar op l r)
-      | _, _ => none
-/-- the operands `mk j`, `mk (j+1)`, … of node `i`, up to the first missing label -/
-def rebuildL (G : HGraph) : Nat → Nat → (Nat → ELabel) → Nat → Option (List Formula)
-  | 0, _, _, _ => none
-  | fuel + 1, i, mk, j =>
-    match childOf G i (mk j) with
-    | none => some []
-    | some c =>
-      match rebuild G fuel c, rebuildL G fuel i mk (j + 1) with
-      | some f, some fs => some (f :: fs)
-      | _, _ => none
-end
-
-
-mutual
-theorem feq_eq : ∀ (a b : Formula), feq a b = true → a = b
-  | .false_, b, h => by cases b <;> simp [feq] at h ⊢
-  | .true_, b, h => by cases b <;> simp [feq] at h ⊢
-  | .var v, b, h => by cases b <;> simp [feq] at h ⊢; exact h
-  | .ref n, b, h => by cases b <;> simp [feq] at h ⊢; exact h
-  | .subtree x, b, h => by cases b <;> simp [feq] at h ⊢; exact h
-  | .not f, b, h => by
-    cases b <;> simp [feq] at h ⊢
-    exact feq_eq f _ h
-  | .quant q vs f, b, h => by
-    cases b <;> simp [feq] at h ⊢
-    exact ⟨h.1.1, h.1.2, feq_eq f _ h.2⟩
-  | .fix v i f, b, h => by
-    cases b <;> simp [feq] at h ⊢
-    exact ⟨h.1.1, h.1.2, feq_eq f _ h.2⟩
-  | .bin op l r, b, h => by
-    cases b <;> simp [feq] at h ⊢
-    exact ⟨h.1.1, feq_eq l _ h.1.2, feq_eq r _ h.2⟩
-  | .ite c t e, b, h => by
-    cases b <;> simp [feq] at h ⊢
-    exact ⟨feq_eq c _ h.1.1, feq_eq t _ h.1.2, feq_eq e _ h.2⟩
-  | .cntConst op fs n, b, h => by
-    cases b <;> simp [feq] at h ⊢
-    exact ⟨h.1.1, feqL_eq fs _ h.2, h.1.2⟩
-  | .cntVar op l r, b, h => by
-    cases b <;> simp [feq] at h ⊢
-    exact ⟨h.1.1, feqL_eq l _ h.1.2, feqL_eq r _ h.2⟩
-theorem feqL_eq : ∀ (as bs : List Formula), feqL as bs = true → as = bs
-  | [], bs, h => by cases bs <;> simp [feqL] at h ⊢
-  | a :: as, bs, h => by
-    cases bs with
-    | nil => simp [feqL] at h
-    | cons b bs =>
-      simp only [feqL, Bool.and_eq_true] at h
-      rw [feq_eq a b h.1, feqL_eq as bs h.2]
-end
-
-theorem find?_unique {α : Type} {l : List α} {P : α → Bool} {x : α} (hx : x ∈ l) (hP : P x = true)
-    (hu : ∀ y ∈ l, P y = true → y = x) : l.find? P = some x := by
-  cases h : l.find? P with
-  | none => have := List.find?_eq_none.mp h x hx; simp [hP] at this
-  | some y => rw [hu y (List.mem_of_find?_eq_some h) (List.find?_some h)]
-
-theorem mapM_some_mem {α β : Type} (f : α → Option β) : ∀ (xs : List α) (ys : List β), xs.mapM f = some ys →
-    (∀ y ∈ ys, ∃ x ∈ xs, f x = some y) ∧ (∀ x ∈ xs, ∃ y ∈ ys, f x = some y)
-  | [], ys, h => by simp at h; subst h; simp
-  | x :: xs, ys, h => by
-    simp only [List.mapM_cons] at h
-    cases hfx : f x with
-    | none => simp [hfx] at h
-    | some b =>
-      cases hr : xs.mapM f with
-      | none => simp [hfx, hr] at h
-      | some bs =>
-        simp [hfx, hr] at h
-        subst h
-        obtain ⟨i1, i2⟩ := mapM_some_mem f xs bs hr
-        constructor
-        · intro y hy
-          rcases List.mem_cons.mp hy with rfl | hy
-          · exact ⟨x, by simp, hfx⟩
-          · obtain ⟨x', hx', e⟩ := i1 y hy; exact ⟨x', by simp [hx'], e⟩
-        · intro x' hx'
-          rcases List.mem_cons.mp hx' with rfl | hx'
-          · exact ⟨b, by simp, hfx⟩
-          · obtain ⟨y, hy, e⟩ := i2 x' hx'; exact ⟨y, by simp [hy], e⟩
-
-
-/-- the edges of the export: node `i` contributes exactly the edges computed for it -/
-theorem parseTree_edges {f : Formula} {g : TreeGraph} (h : parseTree f = some g) :
-    g.nodes = uniqueF (treeNodes f) ∧
-    ∀ e, e ∈ g.edges ↔ ∃ i n es, (uniqueF (treeNodes f))[i]? = some n ∧
-      treeEdgesOf (uniqueF (treeNodes f)) i n = some es ∧ e ∈ es := by
-  unfold parseTree at h
-  simp only [Option.map_eq_some_iff] at h
-  obtain ⟨groups, hg, rfl⟩ := h
-  refine ⟨rfl, fun e => ?_⟩
-  obtain ⟨m1, m2⟩ := mapM_some_mem _ _ _ hg
-  simp only [List.mem_flatten]
-  constructor
-  · rintro ⟨grp, hgrp, he⟩
-    obtain ⟨⟨n, i⟩, hni, hf⟩ := m1 grp hgrp
-    exact ⟨i, n, grp, List.mem_zipIdx_iff_getElem?.mp hni, hf, he⟩
-  · rintro ⟨i, n, es, hn, hf, he⟩
-    obtain ⟨grp, hgrp, hf'⟩ := m2 (n, i) (List.mem_zipIdx_iff_getElem?.mpr hn)
-    simp only at hf'
-    rw [hf] at hf'
-    cases hf'
-    exact ⟨es, hgrp, he⟩
-
-/-- a successful `position` lookup points at the term itself -/
-theorem position_spec {nodes : List Formula} {c : Formula} {j : Nat} (h : position nodes c = some j) :
-    nodes[j]? = some c := by
-  unfold position at h
-  obtain ⟨hj, hp, _⟩ := List.findIdx?_eq_some_iff_getElem.mp h
-  rw [List.getElem?_eq_getElem hj, feq_eq _ _ hp]
-
-/-- the edges computed for a counting list: operand `j` gets label `mk j` -/
-theorem listEdges_spec {nodes : List Formula} {i : Nat} {mk : Nat → ELabel} {fs : List Formula}
-    {es : List (Nat × ELabel × Nat)}
-    (h : (fs.zipIdx).mapM (fun (x : Formula × Nat) => (position nodes x.1).map (fun a => (i, mk x.2, a))) = some es) :
-    ∀ e, e ∈ es ↔ ∃ j c p, fs[j]? = some c ∧ position nodes c = some p ∧ e = (i, mk j, p) := by
-  obtain ⟨m1, m2⟩ := mapM_some_mem _ _ _ h
-  intro e
-  constructor
-  · intro he
-    obtain ⟨⟨c, j⟩, hcj, hf⟩ := m1 e he
-    simp only [Option.map_eq_some_iff] at hf
-    obtain ⟨p, hp, rfl⟩ := hf
-    exact ⟨j, c, p, List.mem_zipIdx_iff_getElem?.mp hcj, hp, rfl⟩
-  · rintro ⟨j, c, p, hc, hp, rfl⟩
-    obtain ⟨y, hy, hf⟩ := m2 (c, j) (List.mem_zipIdx_iff_getElem?.mpr hc)
-    simp only [hp, Option.map_some, Option.some.injEq] at hf
-    rw [hf]; exact hy
-
-
-theorem src_spec {nodes : List Formula} {i : Nat} : ∀ {n : Formula} {es : List (Nat × ELabel × Nat)},
-    treeEdgesOf nodes i n = some es → ∀ e ∈ es, e.1 = i := by
-  intro n es h e he
-  cases n with
-  | bin op l r =>
-    simp only [treeEdgesOf] at h
-    cases h1 : position nodes l <;> cases h2 : position nodes r <;> simp [h1, h2] at h
-    subst h; simp at he; rcases he with rfl | rfl <;> rfl
-  | quant q vs g =>
-    simp only [treeEdgesOf, Option.map_eq_some_iff] at h
-    obtain ⟨a, _, rfl⟩ := h; simp at he; subst he; rfl
-  | not g =>
-    simp only [treeEdgesOf, Option.map_eq_some_iff] at h
-    obtain ⟨a, _, rfl⟩ := h; simp at he; subst he; rfl
-  | fix v init g =>
-    simp only [treeEdgesOf, Option.map_eq_some_iff] at h
-    obtain ⟨a, _, rfl⟩ := h; simp at he; subst he; rfl
-  | cntConst op fs k =>
-    simp only [treeEdgesOf] at h
-    obtain ⟨j, c, p, _, _, rfl⟩ := (listEdges_spec (mk := ELabel.idx) h e).mp he
-    rfl
-  | cntVar op a b =>
-    simp only [treeEdgesOf] at h
-    cases h1 : (a.zipIdx).mapM (fun (x : Formula × Nat) => (position nodes x.1).map (fun p => (i, ELabel.lidx x.2, p))) with
-    | none => simp [h1] at h
-    | some xs =>
-      cases h2 : (b.zipIdx).mapM (fun (x : Formula × Nat) => (position nodes x.1).map (fun p => (i, ELabel.ridx x.2, p))) with
-      | none => simp [h1, h2] at h
-      | some ys =>
-        simp [h1, h2] at h
-        subst h
-        rcases List.mem_append.mp he with he | he
-        · obtain ⟨j, c, p, _, _, rfl⟩ := (listEdges_spec (mk := ELabel.lidx) h1 e).mp he; rfl
-        · obtain ⟨j, c, p, _, _, rfl⟩ := (listEdges_spec (mk := ELabel.ridx) h2 e).mp he; rfl
-  | ite c t e' =>
-    simp only [treeEdgesOf] at h
-    cases h1 : position nodes c <;> cases h2 : position nodes t <;> cases h3 : position nodes e' <;> simp [h1, h2, h3] at h
-    subst h; simp at he; rcases he with rfl | rfl | rfl <;> rfl
-  | false_ => simp [treeEdgesOf] at h; subst h; simp at he
-  | true_ => simp [treeEdgesOf] at h; subst h; simp at he
-  | var v => simp [treeEdgesOf] at h; subst h; simp at he
-  | ref v => simp [treeEdgesOf] at h; subst h; simp at he
-  | subtree v => simp [treeEdgesOf] at h; subst h; simp at he
-
-/-- what is known about an exported graph -/
-structure Exported (N : List Formula) (G : HGraph) : Prop where
-  heads : G.heads = N.map headOf
-  edges : ∀ e, e ∈ G.edges ↔ ∃ i n es, N[i]? = some n ∧ treeEdgesOf N i n = some es ∧ e ∈ es
-
-/-- the edge leaving node `i` with a given label, when the edges computed for `i` have exactly one such -/
-theorem childOf_some {N : List Formula} {G : HGraph} (hx : Exported N G) {i j : Nat} {n : Formula}
-    {es : List (Nat × ELabel × Nat)} {lab : ELabel} (hn : N[i]? = some n) (hes : treeEdgesOf N i n = some es)
-    (hmem : (i, lab, j) ∈ es) (huniq : ∀ e ∈ es, e.2.1 = lab → e = (i, lab, j)) :
-    childOf G i lab = some j := by
-  unfold childOf
-  rw [find?_unique (x := (i, lab, j))]
-  · rfl
-  · exact (hx.edges _).mpr ⟨i, n, es, hn, hes, hmem⟩
-  · simp
-  · intro y hy hP
-    simp only [Bool.and_eq_true, beq_iff_eq, decide_eq_true_eq] at hP
-    obtain ⟨i', n', es', hn', hes', hy'⟩ := (hx.edges y).mp hy
-    have hsrc := src_spec hes' y hy'
-    have hi : i' = i := hsrc.symm.trans hP.1
-    subst hi
-    rw [hn] at hn'; cases hn'
-    rw [hes] at hes'; cases hes'
-    exact huniq y hy' hP.2
-
-theorem childOf_none {N : List Formula} {G : HGraph} (hx : Exported N G) {i : Nat} {n : Formula}
-    {es : List (Nat × ELabel × Nat)} {lab : ELabel} (hn : N[i]? = some n) (hes : treeEdgesOf N i n = some es)
-    (hno : ∀ e ∈ es, e.2.1 ≠ lab) : childOf G i lab = none := by
-  unfold childOf
-  cases h : G.edges.find? (fun e => e.1 == i && decide (e.2.1 = lab)) with
-  | none => rfl
-  | some y =>
-    exfalso
-    have hP := List.find?_some h
-    have hy := List.mem_of_find?_eq_some h
-    simp only [Bool.and_eq_true, beq_iff_eq, decide_eq_true_eq] at hP
-    obtain ⟨i', n', es', hn', hes', hy'⟩ := (hx.edges y).mp hy
-    have hi : i' = i := (src_spec hes' y hy').symm.trans hP.1
-    subst hi
-    rw [hn] at hn'; cases hn'
-    rw [hes] at hes'; cases hes'
-    exact hno y hy' hP.2
-
-
-theorem depth_pos' : ∀ f : Formula, 1 ≤ Formula.depth f := by
-  intro f; cases f <;> simp [Formula.depth]
-theorem depthL_pos' : ∀ fs : List Formula, 1 ≤ Formula.depthL fs := by
-  intro fs; cases fs <;> simp [Formula.depthL]
-
-theorem depthL_drop {fs : List Formula} {j : Nat} {c : Formula} (h : fs[j]? = some c) :
-    Formula.depthL (fs.drop j) = max (Formula.depth c) (Formula.depthL (fs.drop (j + 1))) + 1 := by
-  have hj : j < fs.length := by
-    rcases Nat.lt_or_ge j fs.length with h' | h'
-    · exact h'
-    · rw [List.getElem?_eq_none h'] at h; cases h
-  have e : fs.drop j = c :: fs.drop (j + 1) := by
-    rw [List.drop_eq_getElem_cons hj]
-    rw [List.getElem?_eq_getElem hj] at h
-    cases h; rfl
-  rw [e]; simp [Formula.depthL]
-
-theorem depthL_le_of_mem : ∀ {fs : List Formula} {c : Formula}, c ∈ fs → Formula.depth c < Formula.depthL fs
-  | f :: fs, c, h => by
-    simp only [Formula.depthL]
-    rcases List.mem_cons.mp h with rfl | h
-    · omega
-    · have := depthL_le_of_mem h; omega
-
-/-- the main induction: with enough fuel, node `i` reads back as the term stored at `i`, and the operand
-lists read back as the operand lists -/
-theorem rebuild_spec {N : List Formula} {G : HGraph} (hx : Exported N G)
-    (htot : ∀ i n, N[i]? = some n → ∃ es, treeEdgesOf N i n = some es)
-    (hns : ∀ n ∈ N, ∀ b, n ≠ .subtree b) : ∀ fuel : Nat,
-    (∀ i n, N[i]? = some n → Formula.depth n ≤ fuel → rebuild G fuel i = some n) ∧
-    (∀ i (mk : Nat → ELabel) (fs : List Formula) (j : Nat),
-      (∀ j' c, fs[j']? = some c → ∃ p, childOf G i (mk j') = some p ∧ N[p]? = some c) →
-      childOf G i (mk fs.length) = none → j ≤ fs.length → Formula.depthL (fs.drop j) ≤ fuel →
-      rebuildL G fuel i mk j = some (fs.drop j)) := by
-  intro fuel
-  induction fuel with
-  | zero =>
-    constructor
-    · intro i n _ hd; have := C14.depth_pos' n; omega
-    · intro i mk fs j _ _ _ hd; have := C14.depthL_pos' (fs.drop j); omega
-  | succ fuel ih =>
-    obtain ⟨ihP, ihL⟩ := ih
-    constructor
-    · intro i n hn hd
-      have hhead : G.heads[i]? = some (headOf n) := by rw [hx.heads]; simp [hn]
-      obtain ⟨es, hes⟩ := htot i n hn
-      cases n with
-      | false_ => simp [rebuild, hhead, headOf]
-      | true_ => simp [rebuild, hhead, headOf]
-      | var v => simp [rebuild, hhead, headOf]
-      | ref v => simp [rebuild, hhead, headOf]
-      | subtree b => exact absurd rfl (hns _ (List.mem_of_getElem? hn) b)
-      | not g =>
-        simp only [Formula.depth] at hd
-        simp only [treeEdgesOf, Option.map_eq_some_iff] at hes
-        obtain ⟨a, ha, rfl⟩ := hes
-        have hc := childOf_some hx hn (es := [(i, .plain, a)]) (by simp [treeEdgesOf, ha]) (lab := .plain) (j := a) (by simp)
-          (by intro e he _; simpa using he)
-        simp [rebuild, hhead, headOf, hc, ihP a g (position_spec ha) (by omega)]
-      | quant q vs g =>
-        simp only [Formula.depth] at hd
-        simp only [treeEdgesOf, Option.map_eq_some_iff] at hes
-        obtain ⟨a, ha, rfl⟩ := hes
-        have hc := childOf_some hx hn (es := [(i, .plain, a)]) (by simp [treeEdgesOf, ha]) (lab := .plain) (j := a) (by simp)
-          (by intro e he _; simpa using he)
-        simp [rebuild, hhead, headOf, hc, ihP a g (position_spec ha) (by omega)]
-      | fix v init g =>
-        simp only [Formula.depth] at hd
-        simp only [treeEdgesOf, Option.map_eq_some_iff] at hes
-        obtain ⟨a, ha, rfl⟩ := hes
-        have hc := childOf_some hx hn (es := [(i, .plain, a)]) (by simp [treeEdgesOf, ha]) (lab := .plain) (j := a) (by simp)
-          (by intro e he _; simpa using he)
-        simp [rebuild, hhead, headOf, hc, ihP a g (position_spec ha) (by omega)]
-      | bin op l r =>
-        simp only [Formula.depth] at hd
-        simp only [treeEdgesOf] at hes
-        cases h1 : position N l with
-        | none => simp [h1] at hes
-        | some a =>
-          cases h2 : position N r with
-          | none => simp [h1, h2] at hes
-          | some b =>
-            have hes' : treeEdgesOf N i (.bin op l r) = some [(i, .l, a), (i, .r, b)] := by simp [treeEdgesOf, h1, h2]
-            have hc1 := childOf_some hx hn hes' (lab := .l) (j := a) (by simp)
-              (by intro e he hl; simp at he; rcases he with rfl | rfl; rfl; simp at hl)
-            have hc2 := childOf_some hx hn hes' (lab := .r) (j := b) (by simp)
-              (by intro e he hl; simp at he; rcases he with rfl | rfl; simp at hl; rfl)
-            simp [rebuild, hhead, headOf, hc1, hc2, ihP a l (position_spec h1) (by omega), ihP b r (position_spec h2) (by omega)]
-      | ite c t e' =>
-        simp only [Formula.depth] at hd
-        simp only [treeEdgesOf] at hes
-        cases h1 : position N c with
-        | none => simp [h1] at hes
-        | some a =>
-          cases h2 : position N t with
-          | none => simp [h1, h2] at hes
-          | some b =>
-            cases h3 : position N e' with
-            | none => simp [h1, h2, h3] at hes
-            | some d =>
-              have hes' : treeEdgesOf N i (.ite c t e') = some [(i, .if_, a), (i, .then_, b), (i, .else_, d)] := by
-                simp [treeEdgesOf, h1, h2, h3]
-              have hc1 := childOf_some hx hn hes' (lab := .if_) (j := a) (by simp)
-                (by intro e he hl; simp at he; rcases he with rfl | rfl | rfl; rfl; simp at hl; simp at hl)
-              have hc2 := childOf_some hx hn hes' (lab := .then_) (j := b) (by simp)
-                (by intro e he hl; simp at he; rcases he with rfl | rfl | rfl; simp at hl; rfl; simp at hl)
-              have hc3 := childOf_some hx hn hes' (lab := .else_) (j := d) (by simp)
-                (by intro e he hl; simp at he; rcases he with rfl | rfl | rfl; simp at hl; simp at hl; rfl)
-              simp [rebuild, hhead, headOf, hc1, hc2, hc3, ihP a c (position_spec h1) (by omega),
-                ihP b t (position_spec h2) (by omega), ihP d e' (position_spec h3) (by omega)]
-      | cntConst op fs k =>
-        simp only [Formula.depth] at hd
-        have hes0 := hes
-        simp only [treeEdgesOf] at hes
-        have hspec := listEdges_spec (mk := ELabel.idx) hes
-        have hL := ihL i ELabel.idx fs 0
-          (by
-            intro j' c hc
-            -- the position lookup for operand j' succeeded
-            obtain ⟨y, hy, hf⟩ := (mapM_some_mem _ _ _ hes).2 (c, j') (List.mem_zipIdx_iff_getElem?.mpr hc)
-            simp only [Option.map_eq_some_iff] at hf
-            obtain ⟨p, hp, rfl⟩ := hf
-            refine ⟨p, ?_, position_spec hp⟩
-            apply childOf_some hx hn hes0 ((hspec _).mpr ⟨j', c, p, hc, hp, rfl⟩)
-            intro e he hl
-            obtain ⟨j2, c2, p2, hc2, hp2, rfl⟩ := (hspec e).mp he
-            simp only [ELabel.idx.injEq] at hl
-            subst hl
-            rw [hc] at hc2; cases hc2
-            rw [hp] at hp2; cases hp2; rfl)
-          (by
-            apply childOf_none hx hn hes0
-            intro e he hl
-            obtain ⟨j2, c2, p2, hc2, _, rfl⟩ := (hspec e).mp he
-            simp only [ELabel.idx.injEq] at hl
-            subst hl
-            simp at hc2)
-          (Nat.zero_le _) (by simpa using (by omega : Formula.depthL fs ≤ fuel))
-        simp [rebuild, hhead, headOf, hL]
-      | cntVar op a b =>
-        simp only [Formula.depth] at hd
-        have hes0 := hes
-        simp only [treeEdgesOf] at hes
-        cases h1 : (a.zipIdx).mapM (fun (x : Formula × Nat) => (position N x.1).map (fun p => (i, ELabel.lidx x.2, p))) with
-        | none => simp [h1] at hes
-        | some xs =>
-          cases h2 : (b.zipIdx).mapM (fun (x : Formula × Nat) => (position N x.1).map (fun p => (i, ELabel.ridx x.2, p))) with
-          | none => simp [h1, h2] at hes
-          | some ys =>
-            simp [h1, h2] at hes
-            subst hes
-            have hs1 := listEdges_spec (mk := ELabel.lidx) h1
-            have hs2 := listEdges_spec (mk := ELabel.ridx) h2
-            have hL1 := ihL i ELabel.lidx a 0
-              (by
-                intro j' c hc
-                obtain ⟨y, hy, hf⟩ := (mapM_some_mem _ _ _ h1).2 (c, j') (List.mem_zipIdx_iff_getElem?.mpr hc)
-                simp only [Option.map_eq_some_iff] at hf
-                obtain ⟨p, hp, rfl⟩ := hf
-                refine ⟨p, ?_, position_spec hp⟩
-                apply childOf_some hx hn hes0 (List.mem_append_left _ ((hs1 _).mpr ⟨j', c, p, hc, hp, rfl⟩))
-                intro e he hl
-                rcases List.mem_append.mp he with he | he
-                · obtain ⟨j2, c2, p2, hc2, hp2, rfl⟩ := (hs1 e).mp he
-                  simp only [ELabel.lidx.injEq] at hl
-                  subst hl
-                  rw [hc] at hc2; cases hc2
-                  rw [hp] at hp2; cases hp2; rfl
-                · obtain ⟨j2, c2, p2, _, _, rfl⟩ := (hs2 e).mp he
-                  simp at hl)
-              (by
-                apply childOf_none hx hn hes0
-                intro e he hl
-                rcases List.mem_append.mp he with he | he
-                · obtain ⟨j2, c2, p2, hc2, _, rfl⟩ := (hs1 e).mp he
-                  simp only [ELabel.lidx.injEq] at hl
-                  subst hl
-                  simp at hc2
-                · obtain ⟨j2, c2, p2, _, _, rfl⟩ := (hs2 e).mp he
-                  simp at hl)
-              (Nat.zero_le _) (by simpa using (by omega : Formula.depthL a ≤ fuel))
-            have hL2 := ihL i ELabel.ridx b 0
-              (by
-                intro j' c hc
-                obtain ⟨y, hy, hf⟩ := (mapM_some_mem _ _ _ h2).2 (c, j') (List.mem_zipIdx_iff_getElem?.mpr hc)
-                simp only [Option.map_eq_some_iff] at hf
-                obtain ⟨p, hp, rfl⟩ := hf
-                refine ⟨p, ?_, position_spec hp⟩
-                apply childOf_some hx hn hes0 (List.mem_append_right _ ((hs2 _).mpr ⟨j', c, p, hc, hp, rfl⟩))
-                intro e he hl
-                rcases List.mem_append.mp he with he | he
-                · obtain ⟨j2, c2, p2, _, _, rfl⟩ := (hs1 e).mp he
-                  simp at hl
-                · obtain ⟨j2, c2, p2, hc2, hp2, rfl⟩ := (hs2 e).mp he
-                  simp only [ELabel.ridx.injEq] at hl
-                  subst hl
-                  rw [hc] at hc2; cases hc2
-                  rw [hp] at hp2; cases hp2; rfl)
-              (by
-                apply childOf_none hx hn hes0
-                intro e he hl
-                rcases List.mem_append.mp he with he | he
-                · obtain ⟨j2, c2, p2, _, _, rfl⟩ := (hs1 e).mp he
-                  simp at hl
-                · obtain ⟨j2, c2, p2, hc2, _, rfl⟩ := (hs2 e).mp he
-                  simp only [ELabel.ridx.injEq] at hl
-                  subst hl
-                  simp at hc2)
-              (Nat.zero_le _) (by simpa using (by omega : Formula.depthL b ≤ fuel))
-            simp [rebuild, hhead, headOf, hL1, hL2]
-    · intro i mk fs j hch hend hj hd
-      by_cases hlen : j = fs.length
-      · subst hlen
-        simp [rebuildL, hend]
-      · have hj' : j < fs.length := by omega
-        have hc : fs[j]? = some fs[j] := List.getElem?_eq_getElem hj'
-        obtain ⟨p, hp, hNp⟩ := hch j fs[j] hc
-        rw [depthL_drop hc] at hd
-        have e : fs.drop j = fs[j] :: fs.drop (j + 1) := List.drop_eq_getElem_cons hj'
-        simp only [rebuildL, hp, ihP p fs[j] hNp (by omega), ihL i mk fs (j + 1) hch hend (by omega) (by omega), e]
-
-
-mutual
-theorem noLeaf_treeNodes : ∀ (f : Formula), NoLeaf f → ∀ n ∈ treeNodes f, NoLeaf n
-  | .false_, h, n, hn => by simp [treeNodes] at hn; subst hn; exact h
-  | .true_, h, n, hn => by simp [treeNodes] at hn; subst hn; exact h
-  | .var _, h, n, hn => by simp [treeNodes] at hn; subst hn; exact h
-  | .ref _, h, n, hn => by simp [treeNodes] at hn; subst hn; exact h
-  | .subtree _, h, n, hn => by simp [NoLeaf] at h
-  | .not g, h, n, hn => by
-    simp only [treeNodes, List.mem_append, List.mem_cons, List.not_mem_nil, or_false] at hn
-    rcases hn with hn | rfl
-    · exact noLeaf_treeNodes g (by simpa [NoLeaf] using h) n hn
-    · exact h
-  | .quant q vs g, h, n, hn => by
-    simp only [treeNodes, List.mem_append, List.mem_cons, List.not_mem_nil, or_false] at hn
-    rcases hn with hn | rfl
-    · exact noLeaf_treeNodes g (by simpa [NoLeaf] using h) n hn
-    · exact h
-  | .fix v i g, h, n, hn => by
-    simp only [treeNodes, List.mem_append, List.mem_cons, List.not_mem_nil, or_false] at hn
-    rcases hn with hn | rfl
-    · exact noLeaf_treeNodes g (by simpa [NoLeaf] using h) n hn
-    · exact h
-  | .bin op l r, h, n, hn => by
-    simp only [treeNodes, List.mem_append, List.mem_cons, List.not_mem_nil, or_false] at hn
-    simp only [NoLeaf] at h
-    rcases hn with (hn | hn) | rfl
-    · exact noLeaf_treeNodes l h.1 n hn
-    · exact noLeaf_treeNodes r h.2 n hn
-    · simp only [NoLeaf]; exact h
-  | .ite c t e, h, n, hn => by
-    simp only [treeNodes, List.mem_append, List.mem_cons] at hn
-    simp only [NoLeaf] at h
-    rcases hn with rfl | (hn | hn) | hn
-    · simp only [NoLeaf]; exact h
-    · exact noLeaf_treeNodes c h.1 n hn
-    · exact noLeaf_treeNodes t h.2.1 n hn
-    · exact noLeaf_treeNodes e h.2.2 n hn
-  | .cntConst op fs k, h, n, hn => by
-    simp only [treeNodes, List.mem_cons] at hn
-    rcases hn with rfl | hn
-    · exact h
-    · exact noLeaf_treeNodesL fs (by simpa [NoLeaf] using h) n hn
-  | .cntVar op a b, h, n, hn => by
-    simp only [treeNodes, List.mem_cons, List.mem_append] at hn
-    simp only [NoLeaf] at h
-    rcases hn with rfl | hn | hn
-    · simp only [NoLeaf]; exact h
-    · exact noLeaf_treeNodesL a h.1 n hn
-    · exact noLeaf_treeNodesL b h.2 n hn
-theorem noLeaf_treeNodesL : ∀ (fs : List Formula), NoLeafL fs → ∀ n ∈ treeNodesL fs, NoLeaf n
-  | [], _, n, hn => by simp [treeNodesL] at hn
-  | f :: fs, h, n, hn => by
-    simp only [treeNodesL, List.mem_append] at hn
-    simp only [NoLeafL] at h
-    rcases hn with hn | hn
-    · exact noLeaf_treeNodes f h.1 n hn
-    · exact noLeaf_treeNodesL fs h.2 n hn
-end
-
-/-- C14, second sentence: the parse-tree export, read back from its labels and edges alone (`rebuild`:
-identical sub-terms are one shared node), is the syntax tree — at every node, in particular at the node
-of the whole formula.  For parser output (no diagram leaves; their label does not say which diagram). -/
-theorem tree_roundtrip (f : Formula) (hnl : NoLeaf f) :
-    ∃ g : TreeGraph, parseTree f = some g ∧
-      (∀ (i : Nat) (n : Formula), g.nodes[i]? = some n → rebuild (toH g) (Formula.depth n) i = some n) ∧
-      (∃ i : Nat, g.nodes[i]? = some f) := by
-  have htotal := parseTree_total f
-  cases hg : parseTree f with
-  | none => simp [hg] at htotal
-  | some g =>
-    obtain ⟨hnodes, hedges⟩ := parseTree_edges hg
-    have hx : Exported (uniqueF (treeNodes f)) (toH g) := ⟨by simp [toH, hnodes], by simpa [toH] using hedges⟩
-    have htot : ∀ i n, (uniqueF (treeNodes f))[i]? = some n → ∃ es, treeEdgesOf (uniqueF (treeNodes f)) i n = some es := by
-      intro i n hn
-      unfold parseTree at hg
-      simp only [Option.map_eq_some_iff] at hg
-      obtain ⟨groups, hgr, _⟩ := hg
-      obtain ⟨grp, _, hf⟩ := (mapM_some_mem _ _ _ hgr).2 (n, i) (List.mem_zipIdx_iff_getElem?.mpr hn)
-      exact ⟨grp, hf⟩
-    have hns : ∀ n ∈ uniqueF (treeNodes f), ∀ b, n ≠ .subtree b := by
-      intro n hn b e
-      have hn' : n ∈ treeNodes f := by
-        have := (uniqueF_foldl (treeNodes f) []).1 n hn
-        simpa using this
-      have := noLeaf_treeNodes f hnl n hn'
-      rw [e] at this; simp [NoLeaf] at this
-    refine ⟨g, rfl, ?_, ?_⟩
-    · intro i n hn
-      rw [hnodes] at hn
-      exact (rebuild_spec hx htot hns (Formula.depth n)).1 i n hn (Nat.le_refl _)
-    · rw [hnodes]
-      obtain ⟨y, hy, hfe⟩ := (uniqueF_foldl (treeNodes f) []).2 f (Or.inr (self_mem_treeNodes f))
-      have := feq_eq y f hfe
-      subst this
-      have hy' : y ∈ uniqueF (treeNodes y) := hy
-      obtain ⟨i, hi, he⟩ := List.mem_iff_getElem.mp hy'
-      exact ⟨i, by rw [List.getElem?_eq_getElem hi, he]⟩
 
 
 end Rsbdd.C14
